@@ -1734,7 +1734,7 @@ func (dsc *dataStoreCommand) lmpop(keyNames []string, left bool, count int) (out
 	defer dsc.unlock()
 
 	var result []any
-	elements := make([]any, 0, count)
+	elements := []any{}
 
 	for _, keyName := range keyNames {
 		list, err := dsc.getListUnlocked(keyName)
